@@ -440,6 +440,10 @@ func (sc *srvScen) oracleNodeLists(src *net.UDPAddr, q *qspec, target [20]byte, 
 			if !n.HasResponse {
 				sc.viol("C09", "reply lists a contact that never answered a query")
 			}
+			if !sc.answered[hx(n.Id[:])+"@"+n.Addr] {
+				// judged from what the harness really did, not from the table's own flag
+				sc.viol("C09", "reply lists a contact that has not answered any of the node's own queries: "+hx(n.Id[:4])+"@"+n.Addr)
+			}
 			if n.Bucket > start {
 				sc.viol("C09", "reply lists a contact from a bucket nearer than the target's (target field ignored?)")
 			}
